@@ -319,7 +319,9 @@ SHAPES = ["direct-first", "after-other-call", "in-watch", "in-alarm", "in-block"
           "indirect-in-watch", "foreign-cycle",
           # a container (whose own lines do not close the cycle) BEFORE the call that does
           "after-block", "after-watch", "after-alarm", "indirect-after-block", "indirect-after-watch",
-          "indirect-after-alarm", "after-nested-containers"]
+          "indirect-after-alarm", "after-nested-containers",
+          # both macros have been called (and have run) before A is redefined so that A -> B -> A
+          "redefined-into-cycle"]
 
 
 def _container(kind: str, body: list) -> tuple:
@@ -362,6 +364,13 @@ def gen_recursive(rng: random.Random, shape: str | None = None) -> tuple[list[It
     elif shape == "after-nested-containers":
         defs = [("macro", "A", [mk(), ("watch", "T0 >= 0", [mk(), ("block", "K", [mk()]), mk()]),
                                 ("alarm", "T1 >= 0", [mk()]), mk(), ("call", "A")])]
+    elif shape == "redefined-into-cycle":
+        # A and B (B calls A) are both called and run to their ends; then A is redefined to call B: the call of A
+        # after that must be refused however often the old A and B were called before
+        a1, b1, a2, x = mk(), mk(), mk(), mk()
+        items = pre + [("macro", "A", [a1]), ("macro", "B", [b1, ("call", "A")]), ("call", "A"), ("call", "B"),
+                       ("macro", "A", [a2, ("call", "B")]), x, ("call", "A"), mk()]
+        return items, shape
     elif shape == "foreign-cycle":
         # A does not call itself; B and C call each other: the call of A runs, the call of B inside it is refused
         defs = [("macro", "B", [mk(), ("call", "C")]), ("macro", "C", [mk(), ("call", "B")]),
@@ -376,6 +385,12 @@ def gen_recursive(rng: random.Random, shape: str | None = None) -> tuple[list[It
 def expected_recursive(items: list[Item], shape: str) -> dict[str, Any]:
     """Reference outcome for `gen_recursive` methods: marks before the refused call, which call is refused."""
     marks = [it[1] for it in items if it[0] == "mark"][:1]          # the leading mark; definitions do not run bodies
+    if shape == "redefined-into-cycle":
+        first_a = next(it[2] for it in items if it[0] == "macro" and it[1] == "A")
+        body_b = next(it[2] for it in items if it[0] == "macro" and it[1] == "B")
+        a1, b1 = first_a[0][1], body_b[0][1]
+        x = [it[1] for it in items if it[0] == "mark"][1]
+        return {"marks": marks + [a1, b1, a1, x], "refused": "A"}
     if shape == "foreign-cycle":
         body_a = next(it[2] for it in items if it[0] == "macro" and it[1] == "A")
         marks += [i[1] for i in body_a if i[0] == "mark"]            # A's lines up to its call of B
